@@ -320,10 +320,31 @@ def contracts(reg):
                           final={"state": state_fn(mix_columns)}, modifies=("state",)))
     out.append(FnContract(target=f"{AES}::_inv_mix_columns", params=[("state", p_list_bv(16))],
                           final={"state": state_fn(inv_mix_columns)}, modifies=("state",)))
-    out.append(FnContract(target=f"{AES}::_build_rcon", params=[("max_rounds", p_const(14))],
-                          returns=lambda c: VTuple([VInt(bv(0))] + [VInt(bv(rcon_spec(i))) for i in range(1, 15)])))
-    out.append(FnContract(target=f"{AES}::_rcon", params=[("n", p_const(14))],
-                          returns=lambda c: VTuple([VInt(bv(0))] + [VInt(bv(rcon_spec(i))) for i in range(1, 15)])))
+    def rcon_contract(fname, pname):
+        """Rcon table of a CONCRETE size: verified for the sizes the key schedule can ask for (Nr = 10, 12, 14) and for the real
+        default of the parameter (read from the signature: a call without argument gets THAT value, not a constant of this pack);
+        the result is a function of the argument; any other size at a call site is outside the verified domain (OUT-OF-SUBSET)."""
+        import ast
+        fn = loader.module(AES).functions.get(fname)
+        real = None
+        if fn is not None and fn.args.defaults and [a.arg for a in fn.args.args][-len(fn.args.defaults):].count(pname):
+            d = fn.args.defaults[[a.arg for a in fn.args.args][-len(fn.args.defaults):].index(pname)]
+            if isinstance(d, ast.Constant) and isinstance(d.value, int) and not isinstance(d.value, bool) and 0 <= d.value <= 64:
+                real = d.value
+        dom = sorted({10, 12, 14} | ({real} if real is not None else set()))
+        mk = p_alts(*[p_const(k) for k in dom])
+        mk.default = (lambda ex, st: ops.lift(real)) if real is not None else None
+
+        def returns(c):
+            n = c.args[pname].const() if isinstance(c.args[pname], VInt) else None
+            if n is None or n not in dom:
+                raise ops.Unsupported(f"{fname}({pname}={n}): size outside the verified domain {dom}")
+            return VTuple([VInt(bv(0))] + [VInt(bv(rcon_spec(i))) for i in range(1, n + 1)])
+        return FnContract(target=f"{AES}::{fname}", params=[(pname, mk)], returns=returns,
+                          note=f"Rcon[0] = 0, Rcon[i] = x^(i-1) for i = 1..{pname}; verified for {pname} in {dom}")
+
+    out.append(rcon_contract("_build_rcon", "max_rounds"))
+    out.append(rcon_contract("_rcon", "n"))
     out.append(FnContract(target=f"{AES}::_rot_word", params=[("word", p_list_bv(4))],
                           returns=lambda c: newlist(c, items_of(c, "word")[1:] + items_of(c, "word")[:1])))
     out.append(FnContract(target=f"{AES}::_sub_word", params=[("word", p_list_bv(4))],
@@ -867,8 +888,9 @@ def table_checks(repo, tier):
         G(f"C20/_pypdf_aes_fallback.py::_MUL{k}/module-invariant#equals-gf-multiples-of-{k}", ok and not bad, f"bad indices {bad[:4]}; kind {type(v).__name__}")
     v = ex.module_const("_RCON")
     items = getattr(v, "items", None) or []
-    ok = len(items) == 15 and all(z3.simplify(it.t).as_long() == (0 if i == 0 else rcon_spec(i)) for i, it in enumerate(items))
-    G("C20/_pypdf_aes_fallback.py::_RCON/module-invariant#equals-powers-of-x", ok, f"kind {type(v).__name__}")
+    # every entry present is the right power of x (how many entries _expand_key needs is decided by its own contract)
+    ok = len(items) >= 2 and all(z3.simplify(it.t).as_long() == (0 if i == 0 else rcon_spec(i)) for i, it in enumerate(items))
+    G("C20/_pypdf_aes_fallback.py::_RCON/module-invariant#equals-powers-of-x", ok, f"kind {type(v).__name__}, {len(items)} entries")
     return {"obligations": obls}
 
 
@@ -904,7 +926,7 @@ def install_site(repo, tier):
     if f is None:
         return {"obligations": [], "undecided": [{"obligation": pre, "why": "contract-target-missing"}]}
     obls = []
-    G = lambda label, ok, why="", definite=True: obls.append(ground_obligation(f"{pre}#{label}", ok, why, AES, kind="call-site", definite=definite))
+    G = lambda label, ok, why="", definite=True: obls.append(ground_obligation(f"{pre}#{label}", ok, "" if ok else why, AES, kind="call-site", definite=definite))
     alias, stores, shape_ok, why_shape = {}, [], True, ""
     nested = {}
     local_names = set()
@@ -912,6 +934,7 @@ def install_site(repo, tier):
     if body and isinstance(body[0], ast.Expr) and isinstance(body[0].value, ast.Constant) and isinstance(body[0].value.value, str):
         body = body[1:]
     returned_true = False
+    guards = []
     for st_ in body:
         if returned_true:
             shape_ok, why_shape = False, f"line {st_.lineno}: code after `return True`"
@@ -926,7 +949,7 @@ def install_site(repo, tier):
         elif isinstance(st_, ast.If) and not st_.orelse and len(st_.body) == 1 and isinstance(st_.body[0], ast.Return) \
                 and isinstance(st_.body[0].value, ast.Constant) and st_.body[0].value.value is False \
                 and not any(isinstance(n, (ast.Call, ast.NamedExpr)) for n in ast.walk(st_.test)):
-            pass                                  # guard: not applicable -> returns False before any store
+            guards.append(st_.test)               # guard: not applicable -> returns False before any store
         elif isinstance(st_, ast.Assign) and len(st_.targets) == 1 and isinstance(st_.targets[0], ast.Attribute):
             stores.append((dotted(st_.targets[0]), st_.value, st_.lineno))
         elif isinstance(st_, ast.Return) and isinstance(st_.value, ast.Constant) and st_.value.value is True:
@@ -938,6 +961,16 @@ def install_site(repo, tier):
                     local_names.add(n.id)
     G("body-has-the-straight-line-installation-shape", shape_ok and returned_true, why_shape or "no `return True`", definite=False)
     mod_of = lambda name: alias.get(name, "")
+
+    def is_fallback_test(t):
+        """<providers>.crypt_provider[0] != "local_crypt_fallback"  (the only reason not to install)"""
+        return (isinstance(t, ast.Compare) and len(t.ops) == 1 and isinstance(t.ops[0], ast.NotEq)
+                and isinstance(t.comparators[0], ast.Constant) and t.comparators[0].value == "local_crypt_fallback"
+                and isinstance(t.left, ast.Subscript) and isinstance(t.left.slice, ast.Constant) and t.left.slice.value == 0
+                and isinstance(t.left.value, ast.Attribute) and t.left.value.attr == "crypt_provider"
+                and isinstance(t.left.value.value, ast.Name) and mod_of(t.left.value.value.id) == PYPDF_PROVIDERS)
+    G("installs-whenever-pypdf-runs-on-its-fallback-provider", len(guards) <= 1 and all(is_fallback_test(t) for t in guards),
+      "guards: " + "; ".join(ast.unparse(t) for t in guards), definite=False)
     final = {}
     bad = []
     for (tgt, val, line) in stores:
